@@ -96,6 +96,8 @@ static inline void fiber_manager_switch_to(fiber_manager_t* manager,
   fiber_manager_do_maintenance();
 }
 
+static __thread bool should_check_events = true;
+
 void fiber_manager_yield(fiber_manager_t* manager) {
   assert(fiber_manager_state == FIBER_MANAGER_STATE_STARTED);
   assert(manager);
@@ -104,6 +106,15 @@ void fiber_manager_yield(fiber_manager_t* manager) {
   while (1) {
     manager->yield_count += 1;
     const fiber_state_t state = current_fiber->state;
+
+    // the event engine is otherwise polled only by kernel threads with nothing
+    // to run: while every thread has a fiber in a yield loop, expired sleepers
+    // and ready descriptors would never be noticed. (not while this fiber is
+    // going to sleep: it may hold the spinlock its successor releases)
+    if ((manager->yield_count & 1023) == 0 && state == FIBER_STATE_RUNNING &&
+        should_check_events) {
+      fiber_poll_events();
+    }
 
     fiber_t* const new_fiber = fiber_scheduler_next(manager->scheduler);
     if (new_fiber) {
@@ -141,7 +152,6 @@ void* fiber_load_symbol(const char* symbol) {
 
 static __thread fiber_manager_t* fiber_the_manager = NULL;
 
-static __thread bool should_check_events = true;
 
 fiber_manager_t* fiber_manager_get() { return fiber_the_manager; }
 
